@@ -785,10 +785,10 @@ Proof.
   - rewrite <- E, lenN_app in L. lia.
 Qed.
 
-(* a witness UTXO whose canonical encoding has the 45 bytes readTxOut asks for *)
-Lemma txout_stable v b : read_txout v = Some b -> (45 <= length b)%nat -> lenN v < two64 -> s_wf KTxOut false b = true.
+(* a witness UTXO whose canonical encoding has the 44 bytes readTxOut asks for *)
+Lemma txout_stable v b : read_txout v = Some b -> (44 <= length b)%nat -> lenN v < two64 -> s_wf KTxOut false b = true.
 Proof.
-  unfold read_txout. destruct (length v <? 45)%nat; [discriminate|].
+  unfold read_txout. destruct (length v <? 44)%nat; [discriminate|].
   destruct (p_asset v) as [[a r1]|] eqn:P1; [|discriminate].
   destruct (p_value r1) as [[val r2]|] eqn:P2; [|discriminate].
   destruct (p_nonce r2) as [[n r3]|] eqn:P3; [|discriminate].
@@ -797,7 +797,7 @@ Proof.
   apply p_asset_inv in P1 as [-> Ha]. apply p_value_inv in P2 as [-> Hv]. apply p_nonce_inv in P3 as [-> Hn].
   apply p_var_slice_inv in P4 as [-> Hs].
   apply wf_of_stable; cbn [s_emit PsetV2.s_dec].
-  - unfold read_txout. destruct (Nat.ltb_spec (length (a ++ val ++ n ++ var_slice sc)) 45); [lia|].
+  - unfold read_txout. destruct (Nat.ltb_spec (length (a ++ val ++ n ++ var_slice sc)) 44); [lia|].
     rewrite p_asset_app by exact Ha. rewrite p_value_app by exact Hv. rewrite p_nonce_app by exact Hn.
     rewrite <- (app_nil_r (var_slice sc)). rewrite p_var_slice_app by exact Hs. rewrite app_nil_r. reflexivity.
   - rewrite !lenN_app in Lv. rewrite !lenN_app. lia.
